@@ -60,7 +60,7 @@ fn base_world(dir: &str) {
 }
 
 fn view(w: &WalletH, slots: &[uuid::Uuid]) -> Value {
-	project_wallet(w, &ProjOpts { slots: slots.to_vec(), heights: false })
+	project_wallet(w, &ProjOpts { slots: slots.to_vec(), heights: false, canon_ids: false })
 }
 
 fn make_others(w: &World, n: u32) {
